@@ -54,6 +54,7 @@ def main():
                      "level": "bounded", "seconds": round(secs, 1)}
             if ok:
                 m = re.search(r"histories=(\d+) operations=(\d+) max_comparator_calls=(\d+) scope=\"(.*)\"", ok.group(0))
+                entry["samples"] = re.findall(r"BOUNDED-SAMPLE (.*)", out)[:8]
                 entry.update(result="no violation within scope", histories=int(m.group(1)), operations=int(m.group(2)), max_comparator_calls=int(m.group(3)), scope=m.group(4))
             elif vio:
                 bad += 1
@@ -79,7 +80,21 @@ def main():
     ev = os.path.join(V, "evidence", prop + ".json")
     if os.path.exists(ev):
         d = json.load(open(ev))
-        d["coverage"]["bounded"] = results
+        d["coverage"]["bounded_stand_ins"] = results
+        d.setdefault("assumptions", []).append("bounded stand-ins (tools/bounded.py): exhaustive within the stated scope only; trusted: the Go toolchain running the injected test, the shape predicates in /verif/bounded/*.go.tmpl")
+        if prop == "C07":
+            # C07 is decided by the bounded stand-in: the evidence is exploration-level; the deductive obligations stay listed
+            tot = sum(r.get("histories", 0) for r in results)
+            d["level"] = "exploration"
+            cov = d["coverage"]
+            cov["evaluations"] = tot
+            cov["distinct_nontrivial"] = tot
+            cov["rule"] = ("every history of the scope printed per stand-in is generated once (enumeration, no sampling), so all are distinct; each "
+                           "contains at least one mutating operation and is executed on the real code with shape predicate and comparator-call "
+                           "bound checked after every operation")
+            cov["exhaustive"] = True
+            cov["explanation"] = "bounded stand-in; deductive obligations (keys obligations/discharged) cover only the B-tree fill arithmetic, in-node search, setParent and root split"
+            cov["samples"] = [sm for r in results for sm in r.get("samples", [])][:12] + cov.get("samples", [])[:3]
         d["violations"] = d.get("violations", 0) + bad
         d["wall_s"] = d.get("wall_s", 0) + sum(r["seconds"] for r in results)
         json.dump(d, open(ev, "w"), indent=1)
